@@ -65,7 +65,7 @@ func mkFixture(name string) {
 		file("w/d/sub/x")
 		file("w/f")
 		file("w/o/p")
-		must(os.Symlink("d", "w/ld")) // a symlinked watch path (C18 names it); no symlink *entries* in watched directories
+		must(os.Symlink("d", "w/ld"))            // a symlinked watch path (C18 names it); no symlink *entries* in watched directories
 		must(syscall.Mkfifo("w/d/pipe0", 0o644)) // a pre-existing entry the back end cannot watch: must never be announced
 	case "kmixed": // C17: arbitrary contents incl. a symlink and a FIFO
 		mkFixture("kstd")
